@@ -410,7 +410,7 @@ func textBounds(tier string) mergeBounds {
 	return mergeBounds{maxLen1: 3, triples: nil, modes: []uint32{1, 2, 1024, 1026}, depth2: true, d2Menu: []int{0, 1, 2, 3, 4, 5, 6, 7, 8, 9}, depth3: true, fullDrops: false}
 }
 
-var mergeRule = "explicit-state exploration of the merge state space on the real code: states = segments reachable from a 10-item segment menu (frequencies / lengths / location values at varint boundaries; a gap between stored fields and seven array-positioned stored values in one document; a frequency-0 term with locations in two documents and a doc-value field without tokens; empty batch; single doc with a single-hit-eligible term; two 2-doc batches with identical field lists (byte-copy paths); overlapping field list with a composite field whose locations name other fields; disjoint field list with long array positions and the empty term; 3-doc batch with a field-less document and an id shared with another item), each input built in memory or persisted+re-opened; transitions = Merge(ordered list of <=3 states, one drop bitmap per input) for EVERY drop vector over {nil, empty, every subset} at depth 1, and {nil, empty, singletons, complements, all} for inputs with >3 documents at depth >= 2; chunk modes as bounded. Depth-1 results are deduplicated by canonical state key (semantic dump + per-term single-hit encoding class + chunk mode) computed from the reference model and cross-checked against the key observed on the implementation; each distinct state is merged again (alone, with menu items on either side) at depth 2 (and once more at depth 3 in thorough). A successor is computed by replaying the whole expression on fresh objects. Plus a 'big' family: merges of 600..1030-document segments (a one-document segment lacking the term; two 700-document segments whose every document has the empty term) whose surviving cardinality of a term crosses 1024 - the boundary of the cardinality-dependent chunk-size rules - through inputs and drops, in both input orders, in memory and re-opened, chunk modes 1024/1025/1026, incl. a second merge of a result sitting at the boundary. Non-trivial = merge with >= 1 survivor."
+var mergeRule = "explicit-state exploration of the merge state space on the real code: states = segments reachable from a 10-item segment menu (frequencies / lengths / location values at varint boundaries; a gap between stored fields and seven array-positioned stored values in one document; a frequency-0 term with locations in two documents and a doc-value field without tokens; empty batch; single doc with a single-hit-eligible term; two 2-doc batches with identical field lists (byte-copy paths); overlapping field list with a composite field whose locations name other fields; disjoint field list with long array positions and the empty term; 3-doc batch with a field-less document and an id shared with another item), each input built in memory or persisted+re-opened; transitions = Merge(ordered list of <=3 states, one drop bitmap per input) for EVERY drop vector over {nil, empty, every subset} at depth 1, and {nil, empty, singletons, complements, all} for inputs with >3 documents at depth >= 2; chunk modes as bounded. Depth-1 results are deduplicated by canonical state key (semantic dump + per-term single-hit encoding class + chunk mode) computed from the reference model and cross-checked against the key observed on the implementation; each distinct state is merged again (alone, with menu items on either side) at depth 2 (and once more at depth 3 in thorough). A successor is computed by replaying the whole expression on fresh objects. Plus a 'big' family: merges of 600..1030-document segments (a one-document segment lacking the term; two 700-document segments whose every document has the empty term) whose surviving cardinality of a term crosses 1024 - the boundary of the cardinality-dependent chunk-size rules - through inputs and drops, in both input orders, in memory and re-opened, chunk modes 1024/1025/1026, incl. a second merge of a result sitting at the boundary. Plus a 'pairs' family that reuses the BUILD alphabets as merge inputs: every ordered pair of single-document batches of the 12-entry cell menu over two fields (C06: 144 x 144 pairs; quick: a third of them) resp. of the 9-entry stored-field menu (C05: 81 x 81 pairs) is merged, and for a reduced sub-menu also with re-opened inputs, with either input dropped, and merged a second time with a third document. Non-trivial = merge with >= 1 survivor."
 
 func init() {
 	for _, which := range []string{"C05", "C06"} {
@@ -428,6 +428,11 @@ func init() {
 			Gen: func(tier string, emit func(interface{})) {
 				genMerges("text", textBounds(tier), func(c enum.MergeCase) { emit(c) })
 				genBigMerges(tier, func(c enum.MergeCase) { emit(c) })
+				if which == "C06" {
+					genPairMerges("cells1", tier, func(c enum.MergeCase) { emit(c) })
+				} else {
+					genPairMerges("stored1", tier, func(c enum.MergeCase) { emit(c) })
+				}
 			},
 			Run: runMerge(which),
 		})
@@ -513,6 +518,67 @@ func genBigMerges(tier string, emit func(enum.MergeCase)) {
 			}
 			if tier == "quick" && mode == 1024 {
 				break
+			}
+		}
+	}
+}
+
+// genPairMerges: the build alphabets reused as merge inputs. Every ordered pair of
+// single-document batches of the cell menu (cells1) / the stored-field menu (stored1) is
+// merged (nothing dropped; for a reduced sub-menu also with either input dropped and with
+// re-opened inputs), and the results over the reduced sub-menu are merged again with a
+// third single-document batch.
+func genPairMerges(menuName string, tier string, emit func(enum.MergeCase)) {
+	n := len(enum.Menu(menuName))
+	side := 12
+	reduced := []int{1, 3, 5, 7, 8, 10, 11}
+	if menuName == "stored1" {
+		side = 9
+		reduced = []int{2, 3, 5, 6, 8}
+	}
+	idx := func(a, b int) int { return a*side + b }
+	mk := func(ins []enum.Expr, drops [][]int) enum.Expr {
+		ok := make([]bool, len(ins))
+		for i := range drops {
+			ok[i] = drops[i] != nil
+		}
+		return enum.Expr{In: ins, Drops: drops, DropOK: ok}
+	}
+	modes := []uint32{1026}
+	if tier == "thorough" {
+		modes = []uint32{1, 1026}
+	}
+	for _, mode := range modes {
+		for i := 0; i < n; i++ {
+			for j := 0; j < n; j++ {
+				if tier == "quick" && (i+2*j)%3 != 0 && menuName == "cells1" {
+					continue // quick: a third of the ordered pairs (every pair of SHAPES still meets: see reduced below)
+				}
+				emit(enum.MergeCase{Menu: menuName, Mode: mode, E: mk([]enum.Expr{enum.L(i, false), enum.L(j, false)}, [][]int{nil, nil})})
+			}
+		}
+		// reduced sub-menu: both fields drawn from `reduced`
+		var sub []int
+		for _, a := range reduced {
+			for _, b := range reduced {
+				sub = append(sub, idx(a, b))
+			}
+		}
+		for _, i := range sub {
+			for _, j := range sub {
+				pair := mk([]enum.Expr{enum.L(i, true), enum.L(j, false)}, [][]int{{}, nil})
+				emit(enum.MergeCase{Menu: menuName, Mode: mode, E: pair})
+				if tier == "quick" && (i+j)%4 != 0 {
+					continue
+				}
+				emit(enum.MergeCase{Menu: menuName, Mode: mode, E: mk([]enum.Expr{enum.L(i, false), enum.L(j, true)}, [][]int{{0}, nil})})
+				emit(enum.MergeCase{Menu: menuName, Mode: mode, E: mk([]enum.Expr{enum.L(i, false), enum.L(j, false)}, [][]int{nil, {0}})})
+				// second merge: the pair's result with a third document, and alone with its first document dropped
+				for _, k := range []int{sub[0], sub[len(sub)/2], sub[len(sub)-1]} {
+					emit(enum.MergeCase{Menu: menuName, Mode: mode, E: mk([]enum.Expr{pair, enum.L(k, false)}, [][]int{nil, nil})})
+					emit(enum.MergeCase{Menu: menuName, Mode: mode, E: mk([]enum.Expr{enum.L(k, false), pair}, [][]int{nil, {0}})})
+				}
+				emit(enum.MergeCase{Menu: menuName, Mode: mode, E: mk([]enum.Expr{pair}, [][]int{{0}})})
 			}
 		}
 	}
